@@ -340,6 +340,12 @@ func (u *upstream) handleRedirection(req *simpleRequest, resp *RespValue) {
 		))
 		u.MakeRequestToHost(hostAddr, askingReq)
 		u.MakeRequestToHost(hostAddr, req)
+	default:
+		// The caller matches the error kind by case folding, which also
+		// accepts spellings that are neither of the above (e.g. "a\u017fk").
+		// Nobody else would answer the request.
+		req.SetResponse(resp)
+		return
 	}
 	u.triggerSlotsRefresh()
 }
